@@ -41,6 +41,8 @@ uint64_t Endian_swap64(uint64_t data);
 #define TINS_host_to_le(x) (x)
 #define TINS_le_to_host(x) (x)
 
+/* booleans that were havocked may hold any non-zero byte: compare truth values, not bytes */
+#define TINS_BEQ(a,b) ((!(a)) == (!(b)))
 #define TINS_MIN(a,b) ((a) < (b) ? (a) : (b))
 #define TINS_MAX(a,b) ((a) > (b) ? (a) : (b))
 
